@@ -237,7 +237,18 @@ def all_projects(quick: bool) -> List[Dict[str, Any]]:
         if quick and f is t1_base_chains:
             ps = ps[::3]
         out.extend(ps)
-    return out
+    return out + rnd2_corpus(quick)
+
+
+def rnd2_corpus(quick: bool, max_sched: int = 24) -> List[Dict[str, Any]]:
+    """A fixed corpus of second-generation random projects (the seeds are constants: the corpus is the same in every run)."""
+    out = []
+    for seed in range(60 if quick else 600):
+        p = random_project2(random.Random(1000 + seed))
+        p["meta"]["rnd2_seed"] = 1000 + seed
+        out.append(p)
+    from . import projects as P
+    return [p for p in out if len(P.schedules(p)) <= (max_sched if quick else 120)]
 
 
 # ------------------------------------------------------------------------------- random projects (thorough)
@@ -501,3 +512,139 @@ def t_c04_cycles() -> Iterator[Dict[str, Any]]:
     # module objects exchanged in a cycle (always importable): attribute access happens later, in class bases of a third module
     yield with_entries(project([mod("p", pkg=True), mod("a", 1, ops=flat(frm("", "b", lvl=1), cls("A"))), mod("b", 1, ops=flat(frm("", "a", lvl=1), cls("B"))),
                                 mod("u", 1, ops=flat(frm("", "a", lvl=1), frm("", "b", lvl=1), cls("U", "a.A", "b.B"), cls("V", "a.b.B", "b.a.A")))], "C04c", shape="module-cycle", cyclic=True))
+
+
+# ------------------------------------------------------------------------------- random projects, second generation
+
+def random_project2(rng: random.Random) -> Dict[str, Any]:
+    """RND2: a random project that Python can import (every import names a module defined EARLIER in the list), mixing what
+       the template families vary one at a time: nested packages, a second root, every import form, module aliases, class-scope
+       imports, nested classes as bases, redefinitions, names bound twice, names shared by several modules, aliases,
+       re-exports through __all__ (also through an intermediate module), TYPE_CHECKING-only imports of LATER modules."""
+    mods: List[Dict[str, Any]] = [mod("p", pkg=True)]
+    pk = [1]
+    if rng.random() < 0.5:
+        mods.append(mod("q", 1, pkg=True)); pk.append(2)
+    if rng.random() < 0.25:
+        mods.append(mod("r2", 0, pkg=True)); pk.append(len(mods))
+    pool = ["A", "B", "C", "D", "E", "F", "G", "H"]
+    defs: List[Tuple[int, str, str]] = []          # (module index, name, kind)
+    cyclic = False
+    nmods = rng.randint(2, 4)
+    plan: List[Tuple[int, int]] = []
+    for i in range(nmods):
+        plan.append((len(mods) + 1 + i, rng.choice(pk)))
+    for i, (mi, par) in enumerate(plan):
+        ops: List[Any] = []
+        local: Dict[str, str] = {}                  # local (possibly dotted) name -> kind
+        my_pkg_path = _path(mods, par)
+        def rel(target_mi: int) -> Optional[Tuple[int, str]]:
+            tp = _path(mods, target_mi)
+            if tp[:-1] == my_pkg_path:
+                return 1, tp[-1]
+            if len(my_pkg_path) >= 2 and tp[:-1] == my_pkg_path[:-1]:
+                return 2, tp[-1]
+            return None
+        for _ in range(rng.randint(0, 3)):
+            cands = [d for d in defs if d[0] != mi]
+            if not cands:
+                break
+            dm, dn, dk = rng.choice(cands)
+            path = ".".join(_path(mods, dm))
+            form = rng.choice(["from", "from", "from_as", "import", "import_as", "star", "from_rel", "from_pkg"])
+            r = rel(dm)
+            if form == "from_rel" and r:
+                ops.append(frm(r[1], dn, lvl=r[0])); local[dn] = dk
+            elif form == "from_pkg" and r:
+                ops.append(frm("", r[1], lvl=r[0])); local[r[1] + "." + dn] = dk
+            elif form == "from_as":
+                ops.append(frm(path, dn, "R" + dn)); local["R" + dn] = dk
+            elif form == "import":
+                ops.append(imp(path)); local[path + "." + dn] = dk
+            elif form == "import_as":
+                ops.append(imp(path, "z%d" % len(ops))); local["z%d.%s" % (len(ops) - 1, dn)] = dk
+            elif form == "star" and not mods[dm - 1]["hasAll"]:
+                ops.append(star(path))
+                for (m2, n2, k2) in defs:
+                    if m2 == dm and not n2.startswith("_"):
+                        local[n2] = k2
+            else:
+                ops.append(frm(path, dn)); local[dn] = dk
+        mine: List[Tuple[str, str]] = []
+        for _ in range(rng.randint(1, 3)):
+            kind = rng.choice(["class", "class", "class", "def", "var", "alias"])
+            name = rng.choice(pool)
+            if kind == "var" and local.get(name) in ("class", "def"):
+                continue            # 'X = 1' after 'class X': recorded finding assignment-after-definition-ignored (C03), not generated here
+            classes = [n for n, k in local.items() if k == "class"]
+            if kind == "class":
+                bases = rng.sample(classes, k=min(len(classes), rng.choice([0, 1, 1, 2])))
+                body: List[Any] = []
+                if rng.random() < 0.5:
+                    body.append(fn(rng.choice(["f", "g"])))
+                if rng.random() < 0.3:
+                    body += cls("In", body=[fn("deep")] if rng.random() < 0.5 else [])
+                if rng.random() < 0.3:
+                    body.append(var("level"))
+                if rng.random() < 0.15 and defs:
+                    dm, dn, dk = rng.choice(defs)
+                    if dm != mi:
+                        body.insert(0, frm(".".join(_path(mods, dm)), dn, "L" + dn))
+                ops.extend(cls(name, *bases, body=body))
+                local[name] = "class"
+                if any(isinstance(b, dict) and b.get("k") == "class" for b in body):
+                    local[name + ".In"] = "class"
+                mine.append((name, "class"))
+            elif kind == "def":
+                ops.append(fn(name)); local[name] = "def"; mine.append((name, "def"))
+            elif kind == "var":
+                ops.append(var(name)); local[name] = "var"; mine.append((name, "var"))
+            elif local:
+                src = rng.choice(sorted(local))
+                an = "al" + name
+                ops.append(alias(an, src)); local[an] = local[src]
+        if rng.random() < 0.12 and i + 1 < len(plan) and any(k == "class" and "." not in n and n in [x for x, _ in mine] for n, k in local.items()):
+            # an import for the type checker only, of a module defined later
+            ops.insert(0, {**frm("p.fwd%d" % (i + 1), "Later"), "tc": True})
+            cyclic = True
+        exported = [n for n, k in local.items() if "." not in n and not n.startswith("al") and rng.random() < 0.6]
+        has_all = rng.random() < 0.35 and bool(exported)
+        mods.append(mod("m%d" % i, par, ops=ops, all=exported if has_all else None))
+        for n, k in mine:
+            defs.append((mi, n, k))
+    # forward references of the TYPE_CHECKING imports: make them real (module fwdK defining Later importing from mK)
+    for i, (mi, par) in enumerate(plan):
+        if any(isinstance(o, dict) and o.get("tc") for o in mods[mi - 1]["ops"]):
+            final: Dict[str, str] = {}
+            depth = 0
+            for o in mods[mi - 1]["ops"]:
+                depth += 1 if o["k"] == "class" else -1 if o["k"] == "endclass" else 0
+                if o["k"] == "class" and depth == 1:
+                    final[o["n"]] = "class"
+                elif depth == 0 and o["k"] in ("def", "var", "alias"):
+                    final[o["n"]] = o["k"]
+                elif depth == 0 and o["k"] == "from":
+                    final[o["as"]] = "import"
+            mine_cls = [n for n, k in final.items() if k == "class"]
+            base = [".".join(_path(mods, mi)) + "." + mine_cls[0]] if mine_cls else []
+            ops = flat(imp(".".join(_path(mods, mi))), cls("Later", *base, body=[var("level")]))
+            mods.append(mod("fwd%d" % (i + 1), 1, ops=ops))
+    # packages re-export something from their sub-modules
+    for pi in pk:
+        kids = [(m2, n2, k2) for (m2, n2, k2) in defs if mods[m2 - 1]["par"] == pi and k2 in ("class", "def")]
+        if kids and rng.random() < 0.5:
+            chosen = rng.sample(kids, k=min(len(kids), rng.randint(1, 2)))
+            seen = set()
+            ops = []
+            for (m2, n2, k2) in chosen:
+                if n2 in seen:
+                    continue
+                seen.add(n2)
+                ops.append(frm(mods[m2 - 1]["name"], n2, lvl=1))
+            mods[pi - 1]["ops"] = ops
+            mods[pi - 1]["hasAll"] = True
+            mods[pi - 1]["all"] = sorted(seen)
+    p = project(mods, "RND2")
+    if cyclic:
+        p["meta"]["cyclic"] = True
+    return p
